@@ -1158,6 +1158,141 @@ theorem validateNonce_appendNonce (P : Prims) (rule : Rule) (epoch ts : Int) (rn
                ne_eq, not_true_eq_false, ↓reduceIte]
     rw [if_neg hfresh]
 
+/-! ### HTTP/2 header path: the method and the extended-CONNECT flag come from the header list -/
+
+/-- what an accumulator knows about :method / :protocol was sent in the fields `fs` -/
+def H2From (fs : List (Bytes × Bytes)) (a0 a : H2Acc) : Prop :=
+  (∀ m, a.method = some m → a0.method = some m ∨ (ofString ":method", m) ∈ fs) ∧
+  (a.ext = true → a0.ext = true ∨ (ofString ":protocol", ofString "websocket") ∈ fs)
+
+theorem h2Pseudo_from {a a' : H2Acc} {k v : Bytes} (h : h2Pseudo a k v = .ok a') :
+    H2From [(k, v)] a a' := by
+  unfold h2Pseudo at h
+  repeat' split at h
+  all_goals cases h
+  all_goals
+    constructor
+    · intro m hm
+      first
+        | exact Or.inl hm
+        | (simp only [Option.some.injEq] at hm; subst hm; right; simp [*])
+    · intro he
+      first
+        | exact Or.inl he
+        | (right; simp_all)
+
+theorem validatePseudo_keep {a a' : H2Acc} (h : validatePseudo a = .ok a') :
+    a'.method = a.method ∧ a'.ext = a.ext := by
+  unfold validatePseudo at h
+  repeat' split at h
+  all_goals cases h
+  all_goals exact ⟨rfl, rfl⟩
+
+theorem h2Regular_keep {a a' : H2Acc} {k v : Bytes} (h : h2Regular a k v = .ok a') :
+    a'.method = a.method ∧ a'.ext = a.ext := by
+  unfold h2Regular at h
+  repeat' split at h
+  all_goals cases h
+  all_goals exact ⟨rfl, rfl⟩
+
+theorem h2Field_from {a a' : H2Acc} {k v : Bytes} (h : h2Field a k v = .ok a') :
+    H2From [(k, v)] a a' := by
+  unfold h2Field at h
+  split at h
+  · cases h
+  · split at h
+    · cases h
+    · split at h
+      · exact h2Pseudo_from (a := { a with hlen := a.hlen + k.length + v.length + 4 }) h
+      · split at h
+        · split at h
+          · cases h
+          · rename_i a1 hv
+            obtain ⟨h1, h2⟩ := validatePseudo_keep hv
+            obtain ⟨h3, h4⟩ := h2Regular_keep h
+            exact ⟨fun m hm => Or.inl (by rw [h3, h1] at hm; exact hm),
+                   fun he => Or.inl (by rw [h4, h2] at he; exact he)⟩
+        · obtain ⟨h3, h4⟩ := h2Regular_keep h
+          exact ⟨fun m hm => Or.inl (by rw [h3] at hm; exact hm),
+                 fun he => Or.inl (by rw [h4] at he; exact he)⟩
+
+theorem h2Fields_from (fs : List (Bytes × Bytes)) {a a' : H2Acc} (h : h2Fields fs a = .ok a') :
+    H2From fs a a' := by
+  induction fs generalizing a with
+  | nil =>
+    simp only [h2Fields, Except.ok.injEq] at h; subst h
+    exact ⟨fun m hm => Or.inl hm, fun he => Or.inl he⟩
+  | cons kv rest ih =>
+    unfold h2Fields at h
+    split at h
+    · cases h
+    · rename_i a1 hf
+      obtain ⟨hm1, he1⟩ := h2Field_from hf
+      obtain ⟨hm2, he2⟩ := ih h
+      constructor
+      · intro m hm
+        rcases hm2 m hm with h | h
+        · rcases hm1 m h with h | h
+          · exact Or.inl h
+          · right; simp only [List.mem_singleton] at h; rw [h]; exact List.mem_cons_self
+        · right; exact List.mem_cons_of_mem _ h
+      · intro he
+        rcases he2 he with h | h
+        · rcases he1 h with h | h
+          · exact Or.inl h
+          · right; simp only [List.mem_singleton] at h; rw [h]; exact List.mem_cons_self
+        · right; exact List.mem_cons_of_mem _ h
+
+/-- the request handed to mod_auth carries the :method the client sent, and counts as an
+    extended CONNECT only if the client sent ":method: CONNECT" and ":protocol: websocket" -/
+theorem h2Request_from {fields : List (Bytes × Bytes)} {req : Req} (h : h2Request fields = .ok req) :
+    (ofString ":method", req.method) ∈ fields ∧
+    (req.protocol = true → (ofString ":protocol", ofString "websocket") ∈ fields) := by
+  unfold h2Request at h
+  split at h
+  · cases h
+  · rename_i a0 hf
+    obtain ⟨hm, he⟩ := h2Fields_from fields hf
+    split at h
+    · cases h
+    · rename_i a hv
+      have hk : a.method = a0.method ∧ a.ext = a0.ext := by
+        split at hv
+        · exact validatePseudo_keep hv
+        · simp only [Except.ok.injEq] at hv; subst hv; exact ⟨rfl, rfl⟩
+      split at h
+      · cases h
+      · rename_i m hmeth
+        simp only at h
+        split at h
+        · cases h
+        · split at h
+          · cases h
+          · simp only [Except.ok.injEq] at h
+            subst h
+            simp only
+            constructor
+            · rw [hk.1] at hmeth
+              rcases hm m hmeth with h | h
+              · cases h
+              · exact h
+            · intro hp
+              rw [hk.2] at hp
+              rcases he hp with h | h
+              · cases h
+              · exact h
+
+theorem responseMatches_bound {P : Prims} {req : Req} {dp : Params} {dalgo : Nat} {hA1 : Bytes}
+    (h : responseMatches P req dp dalgo hA1 = true) :
+    hex2bin (dp.response.getD []) = some (kd P dalgo hA1 dp req.method) ∨
+    (req.method = ofString "CONNECT" ∧ req.protocol = true ∧
+     hex2bin (dp.response.getD []) = some (kd P dalgo hA1 dp (ofString "GET"))) := by
+  simp only [responseMatches, Req.h2ext, Bool.or_eq_true, Bool.and_eq_true, decide_eq_true_eq] at h
+  rcases h with h | ⟨⟨h1, h2⟩, h3⟩
+  · exact Or.inl h
+  · exact Or.inr ⟨h1, h2, h3⟩
+
+
 /-! ### a starting state, and fixtures for the non-vacuity examples -/
 
 /-- server start: empty cache, any clock values -/
@@ -1181,14 +1316,18 @@ def cfg : Cfg := { rules := rules, backend := .plain, file := ofString "alice:wo
                    cacheMaxAge := some 600 }
 def basicReq (cred : String) : Req :=
   { method := ofString "GET", target := ofString "/priv/x", path := ofString "/priv/x",
-    auth := some (ofString ("Basic " ++ cred)), h2ext := false }
+    auth := some (ofString ("Basic " ++ cred)), protocol := false }
 def digestHdr (user uri response : String) : Bytes :=
   ofString ("Digest username=\"" ++ user ++ "\", realm=\"R2\", nonce=\"6553f100:00\", uri=\"" ++ uri ++
             "\", qop=auth, nc=00000001, cnonce=\"abc\", response=\"" ++ response ++ "\"")
 def digestReq (method user uri response : String) : Req :=
   { method := ofString method, target := ofString "/dig/x", path := ofString "/dig/x",
-    auth := some (digestHdr user uri response), h2ext := false }
+    auth := some (digestHdr user uri response), protocol := false }
 def st0 : St := init 1000 1700000000
+/-- an HTTP/2 header list: pseudo-headers in the given order, then the Authorization field -/
+def h2Fields (pseudo : List (String × String)) (response : String) : List (Bytes × Bytes) :=
+  pseudo.map (fun p => (ofString p.1, ofString p.2)) ++
+    [(ofString "authorization", digestHdr "alice" "/dig/x" response)]
 def secretRule : Rule :=
   { pfx := ofString "/sec", scheme := .digest, realm := ofString "R1", algorithm := 3,
     secret := some (ofString "s3cr3t"), userhash := false, req := { validUser := true } }
